@@ -2,6 +2,7 @@
 from engine import *
 import provenance
 import mutations
+import accessors
 import json
 import chainrules
 
@@ -458,3 +459,29 @@ RULES = [
 RULES.append(('11.t', 'identity comparisons: every reviewed (function, identity type) == / != comparison (HTLCSource, Txid, OutPoint, ChannelId, PaymentHash, PublicKey, ...) is still made - a function does not silently change what it matches by (rules/provenance.py)', lambda F: provenance.ids_for_property(F, 'C11', '11.t')))
 RULES.append(('11.R', 'state resets: every reviewed constant write to persistent state (flag = true / false, counter = 0, pending slot = None) of a function is still made (rules/provenance.py)', lambda F: provenance.flags_for_property(F, 'C11', '11.R')))
 RULES.append(('11.M', 'collection mutations: every reviewed (function, stored collection, mutator class: add / remove / filter / empty / swap / order) triple is still present - an entry that is no longer removed, inserted or drained on one path (rules/mutations.py)', lambda F: mutations.for_property(F, 'C11', '11.M')))
+RULES.append(('11.A', 'enum accessors agree across sibling variants: an accessor that returns the payload field `x` for one variant returns it for every variant whose payload carries a field of that name and type (a variant moved to the `=> None` arm) - rules/accessors.py', lambda F: accessors.for_property(F, 'C11', '11.A')))
+
+def r11F(F, rid='11.F'):
+	"""filter_block (whole-block delivery) remembers every transaction it reports: the filter closure returns true only on paths that insert the
+	transaction's txid into the per-block matched set - a matched transaction that is not remembered hides its own in-block children (a three-deep
+	chain: commitment, HTLC transaction, its spend), which the transaction-by-transaction delivery does see"""
+	fn = 'lightning::chain::channelmonitor::ChannelMonitorImpl::filter_block'
+	clos = [n for n in F.fns if n.startswith(fn + '::{closure')]
+	out = []
+	n = 0
+	for cn in sorted(clos):
+		fu = F.func(cn)
+		if (fu.locals[0].get('ty') or '') != 'bool':
+			continue
+		ins = [b for b, ci in fu.calls() if norm(ci.get('f') or ci.get('t') or '').endswith(('HashSet::insert', 'HashMap::insert', 'BTreeSet::insert'))]
+		if not ins:
+			continue
+		n += 1
+		p = fu.bool_return_paths(removed_blocks=ins, want=1)
+		ok = p is None
+		out.append(Result(rid, ok, ('ok:' if ok else 'forgotten:') + 'matched-tx-remembered', 'filter_block: every path on which the filter reports a transaction inserts its txid into the matched set' if ok else 'filter_block can report a transaction (return true) without inserting its txid into the matched set (lines %s): its own children in the same block are then filtered out, unlike with per-transaction delivery' % fu.path_lines(p)[-6:], len(ins) + 1, where=F.where(cn, fu.line_of(ins[0]))))
+	if n < 1:
+		out.append(Result(rid, False, 'anchor:filter-block', 'filter_block: no bool closure inserting into a matched set found', where=F.where(fn)))
+	return out
+
+RULES.append(('11.F', 'filter_block remembers every transaction it reports (return true only after inserting the txid into the matched set; value-refined path rule Func.bool_return_paths)', r11F))
